@@ -834,7 +834,10 @@ def rule_role_grp(ctx: Ctx) -> None:
             src = st.value
             if isinstance(src, ast.Name):
                 ds = [n for n in nodes if isinstance(n, ast.Assign) and norm(n.targets[0]) == src.id]
-                stage_guard = any(re.sub(r'\s+', '', a) in ('stage==self.pipe_parallel_rank', 'self.pipe_parallel_rank==stage') for a in pos)
+                # group created for D[S] under the test S == own stage
+                m_arg = re.fullmatch(r'dist\.new_group\((\w+)\[(\w+)\]\)', re.sub(r'\s+', '', norm(ds[0].value))) if len(ds) == 1 else None
+                sv = m_arg.group(2) if m_arg else 'stage'
+                stage_guard = any(re.sub(r'\s+', '', a) in (f'{sv}==self.pipe_parallel_rank', f'self.pipe_parallel_rank=={sv}') for a in pos)
                 ok = len(ds) == 1 and norm(ds[0].value).startswith('dist.new_group(') and stage_guard
             elif isinstance(src, ast.Call) and norm(src.func).endswith('new_group'):
                 ok = len(src.args) == 1 and norm(src.args[0]) == 'self.pipe_parallel_peers'
@@ -846,7 +849,13 @@ def rule_role_grp(ctx: Ctx) -> None:
     for n in nodes:
         if isinstance(n, ast.Call) and norm(n.func).endswith('new_group') and norm(n) != 'dist.new_group(self.pipe_parallel_peers)':
             arg = norm(n.args[0]) if n.args else ''
-            okn = arg == 'stage_peers[stage]' and any(isinstance(m_, ast.Expr) and re.sub(r'\s+', '', norm(m_)) == 'stage_peers.setdefault(topology.get_coord(r).pipe,[]).append(r)' for m_ in nodes)
+            m_arg = re.fullmatch(r'(\w+)\[(\w+)\]', arg)
+            okn = bool(m_arg) and any(isinstance(m_, ast.Expr) and re.fullmatch(re.escape(m_arg.group(1)) + r'\.setdefault\(topology\.get_coord\((\w+)\)\.pipe,\[\]\)\.append\(\1\)',
+                                                                          re.sub(r'\s+', '', norm(m_))) for m_ in nodes)
+            # the table is iterated over its keys (one group per stage) and filled from every rank of the topology
+            if okn:
+                lps = [lp for lp in flow.enclosing_loops(p, init, n) if isinstance(lp, ast.For)]
+                okn = any(norm(lp.target) == m_arg.group(2) and m_arg.group(1) in norm(lp.iter) for lp in lps)
             ctx.check(okn, 'GRP-REUSE', init, 'created groups hold the ranks of one pipe coordinate each', norm(n),
                       f'{norm(n)}: cannot show that the created group holds exactly the ranks of one pipeline stage', n)
     # DET-TIE
